@@ -631,11 +631,14 @@ def run_api(aw, coro_fn, names, mtu, confirm=True):
 def w_notify(items):
     st = core.Stats('notify')
     aw = world()
-    for mtu, lens in items:
+    for item in items:
+        mtu, lens = item[:2]
+        emtu = item[2] if len(item) > 2 else mtu  # the two bearers of one connection need not have the same ATT_MTU
+        mtu_of = {'att': mtu, 'eatt': emtu}
         for L in lens:
             spec = shape_spec('std', min(L, 512), None, 0)
             db = aw.set_database(spec)
-            names = [bearer_for(aw, 'att', mtu, st), bearer_for(aw, 'eatt', mtu, st)]
+            names = [bearer_for(aw, 'att', mtu, st), bearer_for(aw, 'eatt', emtu, st)]
             subscribe_all(aw, names)
             srv = aw.server
             attr = next(a for a in srv.attributes if a.handle == next(r['handle'] for r in db.rows if r['role'] == 'chr_value'))
@@ -667,13 +670,13 @@ def w_notify(items):
                     for p in sent[n]:
                         npdu += 1
                         st.add('pdu_kinds', (k, p[0]))
-                        if A.is_server_originated(p) and len(p) > mtu:
+                        if A.is_server_originated(p) and len(p) > mtu_of[k]:
                             st.violation(
                                 'notification_exceeds_mtu', {'api': cname.split('/')[0], 'bearer': k, 'pdu_opcode': p[0]},
-                                f'{cname} with a {L}-byte value sent a {len(p)}-byte PDU (opcode 0x{p[0]:02X}) on {k} with ATT_MTU {mtu}',
-                                {'mode': 'notify', 'mtu': mtu, 'L': L, 'api': cname},
+                                f'{cname} with a {L}-byte value sent a {len(p)}-byte PDU (opcode 0x{p[0]:02X}) on {k} with ATT_MTU {mtu_of[k]} (the other bearer: {mtu_of["att" if k == "eatt" else "eatt"]})',
+                                {'mode': 'notify', 'mtu': mtu, 'emtu': emtu, 'L': L, 'api': cname},
                             )
-                st.case(f'{cname[:12]}{mtu}/{L}/{npdu}', nontrivial=npdu > 0)
+                st.case(f'{cname[:12]}{mtu}/{emtu}/{L}/{npdu}', nontrivial=npdu > 0)
                 st.count('pdus', npdu)
                 if status:
                     st.count(f'api_status_{status}')
@@ -1260,6 +1263,9 @@ def run(ctx: core.Context) -> int:
         for m in mtus:
             lens = sorted({0, 1, m - 4, m - 3, m - 2, m - 1, m, 512, 513, 600} if quick or m in QUICK_MTUS else {m - 4, m - 3, m - 2, 512})
             items.append((m, lens))
+        # bearers of one connection with different ATT_MTUs (fixed channel larger / smaller than the enhanced one)
+        for m, e in ((517, 23), (517, 48), (185, 24), (23, 185), (48, 517)):
+            items.append((m, sorted({min(m, e) - 3, min(m, e) - 2, max(m, e) - 3, max(m, e) - 2, 512}), e))
         st = ctx.sub('notify')
         for r in core.pmap(w_notify, core.split(items, ctx.jobs * 2), ctx.jobs):
             st.merge(r)
@@ -1372,7 +1378,7 @@ def replay_one(check, c):
                 if aw.s_conn.att_mtu != 23:
                     msgs.append(f'after Exchange MTU client={m} the bearer ATT_MTU is {aw.s_conn.att_mtu}')
     elif mode == 'notify':
-        st = w_notify([(c['mtu'], [c['L']])])
+        st = w_notify([(c['mtu'], [c['L']], c.get('emtu', c['mtu']))])
         close_world()
         msgs += [x.message for x in st.violations if x.check == check]
     elif mode == 'indications':
